@@ -20,6 +20,8 @@ void adjust_program_for_worklist(int wl, Program& P) {
   if (m) {
     if (P.prio_mode == 0)
       P.prio_mode = 2;
+    if (P.prio_mode == 3 && m != 4 && m != 2)
+      P.prio_mode = 2; // equal urgency is only allowed without the monotonic assumption
     P.descending = (m == 2);
     // OBIM's monotonic mode without the barrier asserts that every push is
     // later than the pushing thread's current level; a retried (aborted) item
